@@ -192,7 +192,7 @@ func genAppFail(r *hx.Rand) *hdrCase {
 }
 
 func genHdr(r *hx.Rand) *hdrCase {
-	if r.Chance(1, 12) {
+	if r.Chance(1, 25) {
 		return genAppFail(r)
 	}
 	k := &hdrCase{Path: hx.Pick(r, hdrPaths), Diag: r.Chance(1, 3)}
